@@ -150,6 +150,9 @@ fn same(out: &Result<u32, ServerError>, ok: bool, v: u32) -> bool {
 /// C19: hook-then-serve: the handler runs iff the hook passed, with the context the hook
 /// produced; its result is returned unchanged; a hook failure becomes the response.
 #[kani::proof]
+#[kani::stub(tracing::__macro_support::__is_enabled, crate::verif_kani_support::tracing_never_enabled)]
+#[kani::stub(tracing::__macro_support::MacroCallsite::interest, crate::verif_kani_support::tracing_interest_never)]
+#[kani::stub(tracing::Event::dispatch, crate::verif_kani_support::tracing_no_dispatch)]
 #[kani::unwind(8)]
 fn k4_hook_then_serve() {
     let log = Log::new();
@@ -174,6 +177,9 @@ fn k4_hook_then_serve() {
 /// C19: serve-then-hook: the after-hook runs exactly once after whatever it wraps produced a
 /// result (including an error), and what it leaves in the result is what is returned.
 #[kani::proof]
+#[kani::stub(tracing::__macro_support::__is_enabled, crate::verif_kani_support::tracing_never_enabled)]
+#[kani::stub(tracing::__macro_support::MacroCallsite::interest, crate::verif_kani_support::tracing_interest_never)]
+#[kani::stub(tracing::Event::dispatch, crate::verif_kani_support::tracing_no_dispatch)]
 #[kani::unwind(8)]
 fn k4_serve_then_hook() {
     let log = Log::new();
@@ -199,6 +205,9 @@ fn k4_serve_then_hook() {
 /// C19: combined hook: after part skipped when the before part fails; otherwise it sees the
 /// context its before part produced.
 #[kani::proof]
+#[kani::stub(tracing::__macro_support::__is_enabled, crate::verif_kani_support::tracing_never_enabled)]
+#[kani::stub(tracing::__macro_support::MacroCallsite::interest, crate::verif_kani_support::tracing_interest_never)]
+#[kani::stub(tracing::Event::dispatch, crate::verif_kani_support::tracing_no_dispatch)]
 #[kani::unwind(8)]
 fn k4_before_and_after() {
     let log = Log::new();
@@ -231,6 +240,9 @@ fn k4_before_and_after() {
 /// end), each seeing the changes of those before it; the first failure stops it; serving()
 /// puts the handler after the whole chain. Chain length 0 (`before().serving(s)`) is `s`.
 #[kani::proof]
+#[kani::stub(tracing::__macro_support::__is_enabled, crate::verif_kani_support::tracing_never_enabled)]
+#[kani::stub(tracing::__macro_support::MacroCallsite::interest, crate::verif_kani_support::tracing_interest_never)]
+#[kani::stub(tracing::Event::dispatch, crate::verif_kani_support::tracing_no_dispatch)]
 #[kani::unwind(8)]
 fn k4_chain_api_order_and_short_circuit() {
     let log = Log::new();
@@ -260,6 +272,9 @@ fn k4_chain_api_order_and_short_circuit() {
 
 /// C19: chain length 0: `before()` is the empty list; `before().serving(s)` behaves as `s`.
 #[kani::proof]
+#[kani::stub(tracing::__macro_support::__is_enabled, crate::verif_kani_support::tracing_never_enabled)]
+#[kani::stub(tracing::__macro_support::MacroCallsite::interest, crate::verif_kani_support::tracing_interest_never)]
+#[kani::stub(tracing::Event::dispatch, crate::verif_kani_support::tracing_no_dispatch)]
 #[kani::unwind(8)]
 fn k4_empty_chain_is_identity() {
     let log = Log::new();
@@ -280,6 +295,9 @@ fn k4_empty_chain_is_identity() {
 /// C19, nesting: after(before(s)) -- the after-hook runs once also when the *inner
 /// before-hook* failed (an error from an inner before-hook is a result like any other).
 #[kani::proof]
+#[kani::stub(tracing::__macro_support::__is_enabled, crate::verif_kani_support::tracing_never_enabled)]
+#[kani::stub(tracing::__macro_support::MacroCallsite::interest, crate::verif_kani_support::tracing_interest_never)]
+#[kani::stub(tracing::Event::dispatch, crate::verif_kani_support::tracing_no_dispatch)]
 #[kani::unwind(8)]
 fn k4_after_wraps_inner_before_error() {
     let log = Log::new();
@@ -307,6 +325,9 @@ fn k4_after_wraps_inner_before_error() {
 /// C19: a chain of three built through the public API runs in chained order (then appends at
 /// the end), threads the context, and stops at the first failure.
 #[kani::proof]
+#[kani::stub(tracing::__macro_support::__is_enabled, crate::verif_kani_support::tracing_never_enabled)]
+#[kani::stub(tracing::__macro_support::MacroCallsite::interest, crate::verif_kani_support::tracing_interest_never)]
+#[kani::stub(tracing::Event::dispatch, crate::verif_kani_support::tracing_no_dispatch)]
 #[kani::unwind(8)]
 fn k4_chain_of_three_order() {
     let log = Log::new();
